@@ -1,5 +1,7 @@
 package main
 
+import "strings"
+
 const amrLemma = " The fan-out helper's protocol conformance (R1) is re-checked as a lemma because termination and exactly-once mapping of every AsyncMapReduce call site rest on it."
 
 type scope struct {
@@ -58,5 +60,10 @@ func init() {
 	register("C11", "", ruleMultiplicity, ruleReducers, ruleGoSites)
 	register("C13", "", ruleDedup)
 	register("C01", "", ruleDedup)
+	register("C05", "", ruleMergerGuards, ruleMapRanges(scMerger, 8))
+	register("C04", "", ruleRoutingPairs, ruleNodeFlag, ruleReducers, ruleCallers(func(c string) bool { return strings.Contains(c, "TypeURLMap") }))
+	register("C10", "", ruleErrStructure)
+	register("C13", "", ruleErrStructure)
+	register("C20", "", ruleErrStructure)
 	register("X6", "debug: R6 over whole module", ruleErr(errScope{label: "all", pkgs: []string{"pebbles", "common", "executor", "format", "gqlerrors", "introspection", "merger", "planner", "queryer", "requests"}}))
 }
